@@ -22,6 +22,8 @@ def number_alts(text, integer_ok=True):
         m = ('%r' % val)
         alts += [m + '0', m + 'e0', m + '+0', m.replace('0.', '.', 1) if m.startswith('0.') or m.startswith('-0.') else m + 'E+0',
                  '%.4fd0' % val if abs(val * 10000 - round(val * 10000)) < 1e-9 else m + 'D0']
+    if val > 0 and not text.startswith('+'):
+        alts.append('+' + text)
     out = []
     for a in alts:
         try:
